@@ -203,8 +203,6 @@ def effective_cond(term):
     effective condition is the rightmost operand of the logical operators; a `!` around the logical expression
     (BELOW_THRESHOLD is `! ABOVE_THRESHOLD`, itself `t == 0 || (t != MAX && n >= t)`) is carried onto that operand."""
     c = term.get("cond") if term else None
-    if term and term.get("kind") in ("&&", "||"):
-        return c
     neg = False
     while isinstance(c, dict):
         c2 = strip_expect(c)
